@@ -23,7 +23,11 @@ def fnOfS (l : List String) : Nat → String := fun i => l.getD i ""
 def hStep : Handler := fun op j =>
   match op with
   | "composition_keys" => do
-      pure (showIntList (compositionKeys (← getSubs j "subs")))
+      match ← getOptIntList j "skip" with
+      | none => pure (showIntList (compositionKeys (← getSubs j "subs")))
+      | some skip => pure (showIntList (compositionKeysSkipping skip (← getSubs j "subs")))
+  | "parse_refusal" => do
+      pure (parseRefusal (← getStrList j "keys") (← getStr j "line"))
   | "comp_violation" => do
       let r ← asRxn (← field j "rxn")
       match compositionViolation r (← getSubs j "subs") (← getOptIntList j "ckeys") with
@@ -60,6 +64,7 @@ def hStep : Handler := fun op j =>
       let ny := names.length
       let m := rows.length
       if npiv > m ∨ rows.any (fun r => r.length ≠ ny) ∨ y0.length ≠ ny ∨ y.length ≠ ny then .error "!bad-arg:shape" else
+      if !(checkPreferred pref names) then pure "[];ValueError;" else
       let (M, cs, left) := elimPlan m ny (fnOfS names) npiv rows pref
       let chosen := "[" ++ ",".intercalate (cs.map fun c => s!"[{c.1},{c.2}]") ++ "]"
       match left with
